@@ -56,6 +56,9 @@ def _convert_expr(e, variables_dict):
         elif e.op == Op.IF:
             return z3.If(operands[0], operands[1], operands[2])
         elif e.op == Op.ALLDIFF:
+            if not any(z3.is_expr(x) for x in operands):
+                # z3.Distinct needs at least one z3 term: decide a constant-only list here
+                return len(set(operands)) == len(operands)
             return z3.Distinct(operands)
 
 
